@@ -1,4 +1,5 @@
 """C02 TTNO construction is exact and independent of the tree topology."""
+from vk.symx.harness import guarded
 import numpy as np
 
 from vk.rtc.harness import run_cases
@@ -161,7 +162,7 @@ def check(run):
     verify(run, TB.REL, TB.approximate_partition, fingerprint=TB.FINGERPRINT, replay=replay)
     run_cases(run, w_partition, [(L, g) for L in range(0, 14) for g in range(1, 6)])
     from props import C01_sym
-    C01_sym.prove_tree(run)
+    guarded(run, C01_sym.prove_tree)
     seeds = list(range(run.seed * 100, run.seed * 100 + (3 if run.tier == "quick" else 10)))
     cases = []
     for s in seeds:
